@@ -189,7 +189,7 @@ class SimKernel:
 
     def run(self, sb, exe, argv, *, env=None, stdin=None, stdin_pipe=False, stdout_kind='file',
             faults=(), aslr=0, wall_ms=10000, steps=200000, alloc_mb=256, as_mb=0,
-            want_log=False, extra_fds=0, san=False, capture=True, cwd=None):
+            want_log=False, extra_fds=0, san=False, capture=True, cwd=None, untraced_stderr=None):
         """Run one plan.  argv includes argv[0].  stdin: relpath in sandbox or None."""
         if self.p is None or self.p.poll() is not None:
             self.start()
@@ -218,6 +218,11 @@ class SimKernel:
             lines.append('log 1')
         if extra_fds:
             lines.append('extra_fds %d' % extra_fds)
+        if untraced_stderr is None:
+            # --verbose on a flux image makes over a million unbuffered writes to stderr
+            untraced_stderr = '--verbose' in argv
+        if untraced_stderr:
+            lines.append('untraced_stderr 1')
         lines.append('limit wall_ms %d' % wall_ms)
         lines.append('limit steps %d' % steps)
         lines.append('limit alloc_mb %d' % (0 if san else alloc_mb))
